@@ -98,7 +98,7 @@ CHECKS = {
                 "Recorded sessions of the real binary under tmux, whose preview commands log their own invocation and hold a session "
                 "lock, are validated by Trace_Preview: seeded histories of moves, edits, toggles, toggle/refresh/change-preview fired "
                 "at previewer events, plus directed schedules for TLC's counterexamples. Every pv.* event must be an enabled step; at "
-                "quiescence the LOG, /proc scan, GET / and captured window are checked; after abort/accept/SIGTERM a second /proc scan.",
+                "quiescence the LOG, /proc scan, GET / and captured window are checked; after abort/accept/SIGTERM a second /proc scan. Reload / reload-sync: the list is a function of the input generation, quiescence is stated on the line CONTENT under the cursor, deviation StaleAfterReload kept as a counterexample config.",
         "design_ref": "DESIGN.md §6 C20, §9 F6, Appendix B.3",
         "note": "SIGHUP/SIGKILL of fzf are not exits the property speaks of. Nothing is claimed while the preview window is hidden. "
                 "Placeholder quoting is C12's subject. No in-package gates; process-level schedules instead. The untimed model does "
